@@ -35,7 +35,7 @@ func vDerive(parent *vDerived, id string) *vDerived {
 	if vNonNeg {
 		vrt.Assume(x >= 0) // text encoders: keeps the sign of every number out of the path count
 	}
-	switch vrt.Choice(id+".op", 7) {
+	switch vrt.Choice(id+".op", 9) {
 	case 0:
 		d.log = parent.log.With(d.add("k"+id, x))
 	case 1:
@@ -57,6 +57,12 @@ func vDerive(parent *vDerived, id string) *vDerived {
 		f := Namespace("ns" + id)
 		d.ns = append(d.ns, "ns"+id)
 		d.log = parent.log.With(f, d.add("k"+id, x))
+	case 7:
+		d.log = parent.log.WithLazy(d.add("k"+id, x), d.add("j"+id, 7))
+	case 8:
+		// the sugared path builds its field slice with spare capacity
+		d.log = parent.log.Sugar().WithLazy("k"+id, x).Desugar()
+		d.ctx = append(d.ctx, vPathField{ns: append([]string(nil), d.ns...), key: "k" + id, val: x})
 	}
 	return d
 }
@@ -160,8 +166,13 @@ func (vFixedClock) NewTicker(time.Duration) *time.Ticker { return nil }
 
 var vNonNeg bool
 
-func vContextProgram(n int) {
-	coreKind := vrt.Choice("core", 9)
+func vContextProgram(n int, kinds ...int) {
+	var coreKind int
+	if len(kinds) > 0 {
+		coreKind = kinds[vrt.Choice("corekind", len(kinds))]
+	} else {
+		coreKind = vrt.Choice("core", 9)
+	}
 	vNonNeg = coreKind == 2 || coreKind == 3
 	rec := vNewCore("rec", zapcore.DebugLevel)
 	rec2 := vNewCore("rec2", zapcore.DebugLevel)
@@ -216,6 +227,13 @@ func vContextProgram(n int) {
 			vrt.Assume(y >= 0)
 		}
 		d.log.Info("m", Int64("site", y))
+		if coreKind == 0 || coreKind >= 4 {
+			if n := len(rec.st.writes); n > 0 {
+				w := rec.st.writes[n-1]
+				vrt.Observe("name", w.ent.LoggerName)
+				vrt.Observe("nfields", len(w.fields))
+			}
+		}
 		want := append(append([]vPathField(nil), d.ctx...), vPathField{ns: d.ns, key: "site", val: y})
 		name := vJoin(d.names)
 		switch coreKind {
@@ -289,8 +307,14 @@ func (s *vLineSink) Write(p []byte) (int, error) {
 }
 func (s *vLineSink) Sync() error { return nil }
 
-//verif: prop=C07 bounds="derivation programs of 2 steps (each: parent chosen among earlier loggers; op in {With 1 field, With 3 fields, WithLazy, Named(empty|name), WithOptions(Fields), Sugar.With.Desugar, Namespace+field}), symbolic int64 values, 9 core kinds (recorder, observer, JSON, console, tee, sampler, hooked, increase-level, lazy); every logger logs once, forwards or backwards"
+//verif: prop=C07 bounds="derivation programs of 2 steps (each: parent chosen among earlier loggers; op in {With 1 field, With 3 fields, WithLazy 1 field, WithLazy 2 fields, Named(empty|name), WithOptions(Fields), Sugar.With.Desugar, Sugar.WithLazy.Desugar, Namespace+field}), symbolic int64 values, 9 core kinds (recorder, observer, JSON, console, tee, sampler, hooked, increase-level, lazy); every logger logs once, forwards or backwards"
 func VC07Program2() { vContextProgram(2) }
 
-//verif: prop=C07 tier=thorough bounds="derivation programs of 3 steps"
+//verif: prop=C07 tier=thorough bounds="derivation programs of 3 steps, 9 core kinds"
 func VC07Program3() { vContextProgram(3) }
+
+//verif: prop=C07 bounds="derivation programs of 3 steps (so that two siblings can be derived from a derived, still unused parent) over the recorder core and the lazy-with core"
+func VC07Program3Rec() { vContextProgram(3, 0, 8) }
+
+//verif: prop=C07 tier=thorough bounds="derivation programs of 4 steps over the recorder core"
+func VC07Program4Rec() { vContextProgram(4, 0) }
